@@ -4,8 +4,8 @@
 # of /verif (so that neither /repo nor /verif/.work is disturbed), and prints each check's verdict lines.
 set -e
 PATCH=$(readlink -f "$1"); shift
-V=/var/tmp/vseed
-R=/var/tmp/rseed
+V=/var/tmp/vseed${SEED_SLOT:-}
+R=/var/tmp/rseed${SEED_SLOT:-}
 if [ ! -d "$R" ]; then git -C /repo worktree add -q --detach "$R" HEAD; fi
 git -C "$R" checkout -q --detach "$(git -C /repo rev-parse HEAD)"
 git -C "$R" checkout -q -- . && git -C "$R" clean -fdq
